@@ -35,8 +35,10 @@ Theorem C02_fastpath_unlock_refuses_partial : forall s,
 Proof. exact barrier_sync_unlock_refuses. Qed.
 Print Assumptions C02_fastpath_unlock_refuses_partial.
 
-(* a serial queue never admits "readers": with width 1 the idle word already has the full bit's neighbour set so
-   that one reservation reaches the in-barrier threshold; the reader fast path refuses any non-sync-runnable word *)
+(* the reader (non-barrier sync) fast path refuses any word that is dirty, has a pending barrier, is not sync-runnable, or
+   whose list is non-empty.  (That a SERIAL queue never takes this path at all is decided before the word is looked at:
+   `_dispatch_sync_f_inline` tests dq_width == 1 and goes to the barrier path; that branch is not in this word-level
+   statement.) *)
 Theorem C02_reader_fastpath_guards_partial : forall s tail w,
   (nz (f_dq_state_is_dirty s) = true \/ nz (f_dq_state_has_pending_barrier s) = true \/
    nz (f_dq_state_is_sync_runnable s) = false \/ nz tail = true) ->
